@@ -47,6 +47,7 @@ Record cst := mkc {
   sock_closed : bool;   (* conn.Close() has been called (by the handler or by Close) *)
   client_gone : bool;   (* the client closed its side *)
   is_connect : bool;    (* the current request is a CONNECT *)
+  hs : bool;            (* a listener TLS handshake is still pending (maybeHandshakeTLS) *)
   nreq : N              (* ghost: requests forwarded on this connection *)
 }.
 
@@ -80,7 +81,10 @@ Inductive label :=
 (* handler *)
 | TRegister (i : nat)    (* (tau) lock; conns[conn]; cnt++; unlock *)
 | Addr (i : nat)         (* conn.RemoteAddr() called *)
+| TlsConn (i : nat)      (* the accepted connection is a *tls.Conn: handleLoop will handshake first *)
 | TChkConn (i : nat)     (* (tau) `if p.closing() { return }` of handleLoop *)
+| HsDone (i : nat)       (* the listener TLS handshake completed *)
+| THsFail (i : nat)      (* (tau) the handshake failed or timed out: handleLoop returns *)
 | FirstByte (i : nat)    (* a Read on the client socket returned the first byte(s) of a request *)
 | ReqRead (i : nat) (k : rk)      (* readRequest returned; ProxyTrace.ReadRequest *)
 | TChkReq (i : nat)      (* (tau) `if p.closing() { return errClose }` of handle *)
@@ -92,6 +96,8 @@ Inductive label :=
 | TConnRefuse (i : nat)  (* (tau) 2xx to a CONNECT written with Connection: close while closing: no tunnel, no trace *)
 | SockClose (i : nat)    (* conn.Close() called on connection i by its handler (deferred) *)
 | SockCloseC (i : nat)   (* conn.Close() called on connection i by Close (one item of its loop) *)
+| TSilentClose (i : nat) (* (tau) the handler's deferred conn.Close() on a socket that Close has closed already:
+                            a *tls.Conn returns net.ErrClosed without touching the socket again *)
 | TDec (i : nat)         (* (tau) deferred cnt-- *)
 | TDelete (i : nat)      (* (tau) deferred lock; delete(conns, conn); unlock *)
 (* environment *)
@@ -116,12 +122,13 @@ Inductive label :=
 
 Definition is_tau (l : label) : bool :=
   match l with
-  | TSvChk | TSvErr | TRegister _ | TChkConn _ | TChkReq _ | TDecide _ | TConnRefuse _ | TDec _ | TDelete _
+  | TSvChk | TSvErr | TRegister _ | TChkConn _ | THsFail _ | TChkReq _ | TDecide _ | TConnRefuse _ | TSilentClose _
+  | TDec _ | TDelete _
   | TSdLock | TSdOut _ | TClLock | TClOut => true
   | _ => false
   end.
 
-Definition c0 (cl : bool) : cst := mkc CAcc cl false false false false false 0%N.
+Definition c0 (cl : bool) : cst := mkc CAcc cl false false false false false false 0%N.
 
 Definition g0 : gst := mkg false None 0 [] [] SdIdle ClIdle SvCheck true false.
 
@@ -135,7 +142,7 @@ Fixpoint upd {A} (l : list A) (i : nat) (x : A) : list A :=
   end.
 
 Definition set_pc (c : cst) (p : cpc) : cst :=
-  mkc p (acc_closing c) (fb_closing c) (served c) (sock_closed c) (client_gone c) (is_connect c) (nreq c).
+  mkc p (acc_closing c) (fb_closing c) (served c) (sock_closed c) (client_gone c) (is_connect c) (hs c) (nreq c).
 
 Definition setc (g : gst) (i : nat) (c : cst) : gst :=
   mkg (closing g) (mu g) (cnt g) (regs g) (upd (conns g) i c) (sd g) (cl g) (sv g) (lopen g) (ctx_exp g).
@@ -146,26 +153,38 @@ Fixpoint mem_nat (i : nat) (l : list nat) : bool :=
   match l with [] => false | x :: r => Nat.eqb x i || mem_nat i r end.
 
 (* handler steps: conditions on the connection's own state, result = new cst *)
+Definition set_hs (c : cst) (h : bool) : cst :=
+  mkc (pc c) (acc_closing c) (fb_closing c) (served c) (sock_closed c) (client_gone c) (is_connect c) h (nreq c).
+
+Definition before_check (p : cpc) : bool := match p with CAcc | CReg | CAddr => true | _ => false end.
+
 Definition hstep (closing_now : bool) (c : cst) (l : label) : option cst :=
   match l, pc c with
+  | TlsConn _, _ => if before_check (pc c) then Some (set_hs c true) else None
   | Addr _, CReg => Some (set_pc c CAddr)
   | TChkConn _, CAddr =>
       if closing_now then Some (set_pc c CExit)
-      else Some (mkc CWait (acc_closing c) (fb_closing c) true (sock_closed c) (client_gone c) (is_connect c) (nreq c))
+      else Some (mkc CWait (acc_closing c) (fb_closing c) true (sock_closed c) (client_gone c) (is_connect c) (hs c) (nreq c))
+  | HsDone _, CWait => if hs c then Some (set_hs c false) else None
+  | THsFail _, CWait => if hs c then Some (set_pc c CExit) else None
   | FirstByte _, CWait =>
-      Some (mkc CHead (acc_closing c) closing_now (served c) (sock_closed c) (client_gone c) (is_connect c) (nreq c))
+      if hs c then None
+      else Some (mkc CHead (acc_closing c) closing_now (served c) (sock_closed c) (client_gone c) (is_connect c) (hs c) (nreq c))
   | ReqRead _ ROk, CHead =>
-      Some (mkc CRead (acc_closing c) (fb_closing c) (served c) (sock_closed c) (client_gone c) false (nreq c))
+      Some (mkc CRead (acc_closing c) (fb_closing c) (served c) (sock_closed c) (client_gone c) false (hs c) (nreq c))
   | ReqRead _ RConnect, CHead =>
-      Some (mkc CRead (acc_closing c) (fb_closing c) (served c) (sock_closed c) (client_gone c) true (nreq c))
-  | ReqRead _ RErr, CWait => Some (set_pc c CExit)      (* EOF, timeout, socket closed *)
+      Some (mkc CRead (acc_closing c) (fb_closing c) (served c) (sock_closed c) (client_gone c) true (hs c) (nreq c))
+  | ReqRead _ RErr, CWait => if hs c then None else Some (set_pc c CExit)      (* EOF, timeout, socket closed *)
   | ReqRead _ RErr, CHead => Some (set_pc c CExit)
   | TChkReq _, CRead => if closing_now then Some (set_pc c CExit) else Some (set_pc c CChecked)
   | Fwd _, CChecked =>
-      Some (mkc CFwd (acc_closing c) (fb_closing c) (served c) (sock_closed c) (client_gone c) (is_connect c) (nreq c + 1)%N)
+      Some (mkc CFwd (acc_closing c) (fb_closing c) (served c) (sock_closed c) (client_gone c) (is_connect c) (hs c) (nreq c + 1)%N)
   | RTLeave _, CFwd => Some (set_pc c CResp)
   | TDecide _, CResp => Some (set_pc c (CWriting closing_now))
   | WrCall _, CWriting b => Some (set_pc c (CWriting2 b))
+  | Wrote _ b e, CWriting b' =>
+      (* the write failed before any byte reached the socket (a closed *tls.Conn refuses at once) *)
+      if e && Bool.eqb b b' && (sock_closed c || client_gone c) then Some (set_pc c CExit) else None
   | Wrote _ b e, CWriting2 b' =>
       if is_connect c
       then (* end of a tunnel: traceWroteResponse(res, nil) with res.Close = false; or the 2xx could not
@@ -176,21 +195,23 @@ Definition hstep (closing_now : bool) (c : cst) (l : label) : option cst :=
            then Some (set_pc c (if b || e then CExit else CWait)) else None
   | TConnRefuse _, CWriting2 true => if is_connect c then Some (set_pc c CExit) else None
   | SockClose _, CExit =>
-      Some (mkc CClosed (acc_closing c) (fb_closing c) (served c) true (client_gone c) (is_connect c) (nreq c))
+      Some (mkc CClosed (acc_closing c) (fb_closing c) (served c) true (client_gone c) (is_connect c) (hs c) (nreq c))
+  | TSilentClose _, CExit => if sock_closed c then Some (set_pc c CClosed) else None
   | ClientGone _, _ =>
-      Some (mkc (pc c) (acc_closing c) (fb_closing c) (served c) (sock_closed c) true (is_connect c) (nreq c))
+      Some (mkc (pc c) (acc_closing c) (fb_closing c) (served c) (sock_closed c) true (is_connect c) (hs c) (nreq c))
   | _, _ => None
   end.
 
 Definition label_conn (l : label) : option nat :=
   match l with
+  | TlsConn i | HsDone i | THsFail i | TSilentClose i
   | Addr i | TChkConn i | FirstByte i | ReqRead i _ | TChkReq i | Fwd i | RTLeave i | TDecide i
   | WrCall i | Wrote i _ _ | TConnRefuse i | ClientGone i => Some i
   | _ => None
   end.
 
 Definition mark_closed (c : cst) : cst :=
-  mkc (pc c) (acc_closing c) (fb_closing c) (served c) true (client_gone c) (is_connect c) (nreq c).
+  mkc (pc c) (acc_closing c) (fb_closing c) (served c) true (client_gone c) (is_connect c) (hs c) (nreq c).
 
 Definition stepf (g : gst) (l : label) : option gst :=
   match l with
